@@ -645,7 +645,7 @@ int process_patch(const Options& options)
                             remove_file_and_empty_parent_folders(output_file);
                     }
                     write_to_file = false;
-                } else if (patch.new_file_path == "/dev/null" || patch.format == Format::Git) {
+                } else if (patch.new_file_path == "/dev/null") {
                     // NOTE: a removal which was only inferred from a hunk that adds no lines at line 0 (such as
                     //       the removal of the first line of a file in a diff without any context) is no removal.
                     out << "Not deleting file " << output_file << " as content differs from patch\n";
